@@ -237,6 +237,16 @@ theorem categories_spec (strong : Bool) (cols : List Col) :
   rw [h1]
   exact ⟨by simpa using h2, n, h3⟩
 
+/-! ### `iequals` -/
+
+theorem iequals_iff (a b : Str) : iequals a b = true ↔ a.map toLower = b.map toLower := by
+  induction a generalizing b with
+  | nil => cases b <;> simp [iequals]
+  | cons x xs ih =>
+    cases b with
+    | nil => simp [iequals]
+    | cons y ys => simp [iequals, ih]
+
 /-! ### values and their domains -/
 
 /-- the alternative of `value_t` a value holds -/
